@@ -326,7 +326,7 @@ impl<const BITS: usize, const LIMBS: usize> Uint<BITS, LIMBS> {
     #[inline(always)]
     const fn masked(mut self) -> Self {
         if Self::SHOULD_MASK {
-            self.limbs[LIMBS - 1] &= Self::MASK;
+            self.limbs[Self::LIMBS - 1] &= Self::MASK;
         }
         self
     }
